@@ -231,7 +231,10 @@ pub fn install_panic_hook() {
             // std/core: quinn if that frame lies in quinn's sources, the harness otherwise.
             let (mut file, mut line) = (file, line);
             let in_q = |f: &str| f.contains("/repo/") || f.contains("quinn-proto/src/") || f.contains("quinn/src/") || f.contains("quinn-udp/src/");
-            if !in_q(&file) && !file.contains("/harness/src/") && !file.contains("/verif/") {
+            // (the harness's own implementation of quinn's crypto traits counts like the standard library: a
+            // key that is handed too short a buffer fails on behalf of its caller)
+            let shim = file.ends_with("simcrypto.rs");
+            if (!in_q(&file) && !file.contains("/harness/src/") && !file.contains("/verif/")) || shim {
                 let bt = std::backtrace::Backtrace::force_capture().to_string();
                 if std::env::var("QV_DEBUG_BT").is_ok() {
                     eprintln!("--- backtrace of captured panic ---\n{bt}");
@@ -254,7 +257,7 @@ pub fn install_panic_hook() {
                     start += 1;
                 }
                 for (sym, at) in frames.iter().skip(start) {
-                    let std_frame = at.starts_with("/rustc/") || at.contains("/library/") || sym.starts_with("core::") || sym.starts_with("std::") || sym.starts_with("alloc::") || sym.starts_with("<core::") || sym.starts_with("<std::") || sym.starts_with("<alloc::");
+                    let std_frame = at.contains("simcrypto.rs") || sym.contains("simcrypto::") || at.starts_with("/rustc/") || at.contains("/library/") || sym.starts_with("core::") || sym.starts_with("std::") || sym.starts_with("alloc::") || sym.starts_with("<core::") || sym.starts_with("<std::") || sym.starts_with("<alloc::");
                     if std_frame {
                         continue;
                     }
